@@ -360,8 +360,312 @@ def validate(ctx, traces, kept, sig_of):
         ctx.fail(v["clause"], "recorded call rejected by TiltMetaTrace at step %d" % v["step"], case, sig_of(case, v))
 
 
+# ---- L3: loaders and wedge lists -----------------------------------------------------------------------------------
+# scales: tilt x100, dose x100, defocus Angstrom x10 (= micrometre x1e5), astigmatism angle x100, phase shift x1000,
+#         pixel size x1000, z-shift x10, voltage x10, amplitude contrast x1000, cs x100
+def gen_tilts(rng, n):
+    lo = rng.randint(-7000, 0)
+    out, v = [], lo
+    for _ in range(n):
+        out.append(v)
+        v += rng.choice([100, 200, 300, 150, 201, 17, 5, 1])
+    return out                                               # ascending, pairwise different
+
+
+def gen_ctf(rng, n, phase):
+    return [{"u": rng.randint(5000, 80000) * 10 + rng.randrange(10), "v": rng.randint(5000, 80000) * 10 + rng.randrange(10),
+             "ang": rng.randint(-9000, 9000), "ps": (rng.randint(0, 3141) if phase else 0)} for _ in range(n)]
+
+
+def gen_table_case(rng, idx):
+    r = rng.random()
+    n = rng.choice([1, 2, rng.randint(1, 80), rng.randint(1, 80), 80])
+    if r < 0.12:
+        return {"kind": "loader", "id": idx, "what": "tlt", "vals": gen_tilts(rng, n), "sort": rng.random() < 0.7,
+                "input": rng.choice(["file", "file", "array", "list", "mdoc"])}
+    if r < 0.22:
+        return {"kind": "loader", "id": idx, "what": "dose", "vals": [rng.randint(0, 30000) for _ in range(n)],
+                "input": rng.choice(["file", "file", "array", "list"])}
+    if r < 0.32:
+        tl = gen_tilts(rng, n)
+        rng.shuffle(tl)                                       # acquisition order, not tilt order
+        return {"kind": "loader", "id": idx, "what": "mdocdose", "sort": rng.random() < 0.7,
+                "imgs": [{"tilt": t, "prior": rng.randint(0, 20000), "expo": rng.randint(1, 500)} for t in tl]}
+    if r < 0.5:
+        fmt = rng.choice(["gctf", "gctf_nophase", "ctffind4"])
+        return {"kind": "loader", "id": idx, "what": "defocus", "fmt": fmt, "via": rng.choice(["read", "defocus_load"]),
+                "rows": gen_ctf(rng, n, fmt != "gctf_nophase")}
+    # wedge lists
+    nt = rng.randint(1, 5)
+    ids = rng.sample(range(1, 999), nt)
+    mode = rng.choice(["single", "batch", "batch", "em", "sg2em"])
+    if mode == "single":
+        ids, nt = ids[:1], 1
+    tomo_input = rng.choice(["array", "file"])
+    if tomo_input == "file" or mode == "sg2em":
+        ids.sort()                                            # a tomogram list file is loaded sorted
+    with_ctf = rng.choice(["none", "gctf", "gctf_nophase", "ctffind4", "array"])
+    with_dose = rng.choice(["none", "file", "array" if mode == "single" else "file"])
+    same_dims = rng.random() < 0.25
+    dim0 = [rng.randint(100, 5000), rng.randint(100, 5000), rng.randint(50, 3000)]
+    zs0 = rng.randint(-2000, 2000)
+    same_z = rng.random() < 0.3
+    tomos = []
+    for t in ids:
+        k = rng.choice([1, 2, rng.randint(1, 80), rng.randint(1, 41)])
+        tomos.append({"id": t, "tilts": gen_tilts(rng, k),
+                      "ctf": gen_ctf(rng, k, with_ctf != "gctf_nophase") if with_ctf != "none" else [],
+                      "dose": [rng.randint(0, 30000) for _ in range(k)] if with_dose != "none" else [],
+                      "dim": list(dim0) if same_dims else [rng.randint(100, 5000), rng.randint(100, 5000), rng.randint(50, 3000)],
+                      "zshift": zs0 if same_z else rng.randint(-2000, 2000)})
+    consts = {"px": rng.choice([1000, 1327, 2400, rng.randint(500, 20000)]), "voltage": rng.choice([3000, 2000, 1200]),
+              "amp": rng.choice([70, 100, 85]), "cs": rng.choice([270, 200, 1])}
+    return {"kind": "wedge", "id": idx, "what": mode, "tomos": tomos, "consts": consts, "tomo_input": tomo_input,
+            "ctf": with_ctf, "dose": with_dose, "tlt_input": rng.choice(["file", "array"]) if mode == "single" else "file",
+            "dims_input": rng.choice(["same"] if same_dims else ["table", "table_file", "per_tomo_files"]),
+            "z_input": rng.choice(["scalar"] if same_z else ["table", "table_file", "frame", "per_tomo_files"]),
+            "shuffle": rng.randrange(1000), "variant": rng.randrange(8)}
+
+
+def mdoc_text(imgs, with_dose=True):
+    lines = ["PixelSpacing = 1.971\n", "Voltage = 300\n", "\n", "[T = SerialEM: generated]\n", "\n"]
+    for k, im in enumerate(imgs):
+        lines.append("[ZValue = %d]\n" % k)
+        lines.append("TiltAngle = %s\n" % tm.dec(im["tilt"], 100, 2))
+        if with_dose:
+            lines.append("ExposureDose = %s\n" % tm.dec(im["expo"], 100, 2))
+            lines.append("PriorRecordDose = %s\n" % tm.dec(im["prior"], 100, 2))
+        lines.append("SubFramePath = f_%03d.mrc\n\n" % k)
+    return "".join(lines)
+
+
+def ints(vals, scale):
+    out = []
+    for v in np.asarray(vals, dtype=object).ravel():
+        r = tm.sround(v, scale)
+        out.append(-99999999 if r is None else r)
+    return out
+
+
+def wedge_rows_of_frame(df):
+    """Returned / re-read STOPGAP wedge list -> rows of scaled integers (missing column: -1)."""
+    rows = []
+    for _, r in df.iterrows():
+        def g(name, scale):
+            if name not in df.columns:
+                return -1
+            v = tm.sround(r[name], scale)
+            return -99999999 if v is None else v
+        rows.append({"tomo": g("tomo_num", 1), "px": g("pixelsize", 1000),
+                     "dim": [g("tomo_x", 1), g("tomo_y", 1), g("tomo_z", 1)], "zshift": g("z_shift", 10),
+                     "tilt": g("tilt_angle", 100), "mean2": g("defocus", 200000), "dose": g("exposure", 100),
+                     "voltage": g("voltage", 10), "amp": g("amp_contrast", 1000), "cs": g("cs", 100)})
+    return rows
+
+
+def frame_of_star(path):
+    import pandas as pd
+    labels, rows = tm.read_star_table(path)
+    return pd.DataFrame([[float(c) for c in r] for r in rows], columns=labels)
+
+
+def em_rows(path):
+    em = parsers.read_em(path)
+    d = em["data"]
+    if em["nx"] != 3 or em["nz"] != 1 or len(d) != 3 * em["ny"]:
+        return [{"tomo": -1, "lo": em["nx"], "hi": em["ny"]}]
+    return [{"tomo": tm.sround(d[3 * k], 1), "lo": tm.sround(d[3 * k + 1], 100), "hi": tm.sround(d[3 * k + 2], 100)}
+            for k in range(em["ny"])]
+
+
+def exec_table_case(case, wd):
+    """Performs the calls of one loader / wedge case.  Returns [(what, got)] observations (one trace each)."""
+    import pandas as pd
+    from cryocat import ioutils, wedgeutils
+    os.makedirs(wd, exist_ok=True)
+    what = case["what"]
+    out = []
+    with contextlib.redirect_stdout(io.StringIO()):
+        if case["kind"] == "loader":
+            if what == "tlt":
+                vals = case["vals"]
+                if case["input"] == "file":
+                    path = os.path.join(wd, "a.tlt")
+                    tm.write_values(path, vals, 100, 2, pad="  ")
+                    got = ioutils.tlt_load(path, sort_angles=case["sort"])
+                elif case["input"] == "mdoc":
+                    path = os.path.join(wd, "a.mdoc")
+                    with open(path, "w") as fh:
+                        fh.write(mdoc_text([{"tilt": v} for v in vals], with_dose=False))
+                    got = ioutils.tlt_load(path, sort_angles=case["sort"])
+                elif case["input"] == "array":
+                    got = ioutils.tlt_load(np.array(vals, dtype=float) / 100.0, sort_angles=case["sort"])
+                else:
+                    got = ioutils.tlt_load([v / 100.0 for v in vals], sort_angles=case["sort"])
+                out.append(("tlt", ints(got, 100)))
+            elif what == "dose":
+                vals = case["vals"]
+                if case["input"] == "file":
+                    path = os.path.join(wd, "dose.txt")
+                    tm.write_values(path, vals, 100, 2)
+                    got = ioutils.total_dose_load(path)
+                elif case["input"] == "array":
+                    got = ioutils.total_dose_load(np.array(vals, dtype=float) / 100.0)
+                else:
+                    got = ioutils.total_dose_load([v / 100.0 for v in vals])
+                out.append(("dose", ints(got, 100)))
+            elif what == "mdocdose":
+                path = os.path.join(wd, "d.mdoc")
+                with open(path, "w") as fh:
+                    fh.write(mdoc_text(case["imgs"]))
+                got = ioutils.total_dose_load(path, sort_mdoc=case["sort"])
+                out.append(("mdocdose", ints(got, 100)))
+            else:
+                rows = case["rows"]
+                if case["fmt"] == "ctffind4":
+                    path = os.path.join(wd, "ctf.txt")
+                    tm.write_ctffind4(path, rows)
+                    df = ioutils.ctffind4_read(path) if case["via"] == "read" else ioutils.defocus_load(path, "ctffind4")
+                else:
+                    path = os.path.join(wd, "ctf.star")
+                    tm.write_gctf(path, rows, case["fmt"] == "gctf")
+                    df = ioutils.gctf_read(path) if case["via"] == "read" else ioutils.defocus_load(path, "gctf")
+                got = [{"d1": tm.sround(r["defocus1"], 1e5), "d2": tm.sround(r["defocus2"], 1e5),
+                        "mean2": tm.sround(r["defocus_mean"], 2e5), "ast": tm.sround(r["astigmatism"], 100),
+                        "ps": tm.sround(r["phase_shift"], 1000)} for _, r in df.iterrows()]
+                out.append(("defocus", got))
+            return out
+        # ---- wedge lists
+        tomos, C = case["tomos"], case["consts"]
+        px, volt, amp, cs = C["px"] / 1000.0, C["voltage"] / 10.0, C["amp"] / 1000.0, C["cs"] / 100.0
+        sh = __import__("random").Random(case["shuffle"])
+        for t in tomos:
+            tm.write_values(os.path.join(wd, "%03d.tlt" % t["id"]), t["tilts"], 100, 2, pad=" ")
+            if t["dose"]:
+                tm.write_values(os.path.join(wd, "%04d_dose.txt" % t["id"]), t["dose"], 100, 2)
+            if t["ctf"]:
+                if case["ctf"] == "ctffind4":
+                    tm.write_ctffind4(os.path.join(wd, "%03d_ctf.txt" % t["id"]), t["ctf"])
+                else:
+                    tm.write_gctf(os.path.join(wd, "%03d_ctf.star" % t["id"]), t["ctf"], case["ctf"] != "gctf_nophase")
+            with open(os.path.join(wd, "%03d_dim.txt" % t["id"]), "w") as fh:
+                fh.write("%d %d %d\n" % tuple(t["dim"]))
+            with open(os.path.join(wd, "%03d_zshift.txt" % t["id"]), "w") as fh:
+                fh.write("%s\n" % tm.dec(t["zshift"], 10, 1))
+        ids = [t["id"] for t in tomos]
+        if case["tomo_input"] == "file":
+            tomo_list = os.path.join(wd, "tomo_list.txt")
+            with open(tomo_list, "w") as fh:
+                for i in ids:
+                    fh.write("%03d\n" % i)
+        else:
+            tomo_list = np.array(ids)
+        tlt_fmt = os.path.join(wd, "$xxx.tlt")
+        if what == "single":
+            t = tomos[0]
+            tlt = os.path.join(wd, "%03d.tlt" % t["id"]) if case["tlt_input"] == "file" else np.array(t["tilts"], dtype=float) / 100.0
+            ctf_file, ctf_type = None, "gctf"
+            if t["ctf"]:
+                if case["ctf"] == "ctffind4":
+                    ctf_file, ctf_type = os.path.join(wd, "%03d_ctf.txt" % t["id"]), "ctffind4"
+                elif case["ctf"] == "array":
+                    ctf_file = np.array([[r["u"] / 1e5, r["v"] / 1e5, r["ang"] / 100.0, r["ps"] / 1000.0,
+                                          (r["u"] / 1e5 + r["v"] / 1e5) / 2.0] for r in t["ctf"]])
+                else:
+                    ctf_file = os.path.join(wd, "%03d_ctf.star" % t["id"])
+            dose = None
+            if t["dose"]:
+                dose = os.path.join(wd, "%04d_dose.txt" % t["id"]) if case["dose"] == "file" else np.array(t["dose"], dtype=float) / 100.0
+            dim = [list(t["dim"]), np.array(t["dim"], dtype=float), os.path.join(wd, "%03d_dim.txt" % t["id"])][case["variant"] % 3]
+            zsh = [t["zshift"] / 10.0, os.path.join(wd, "%03d_zshift.txt" % t["id"])][(case["variant"] // 3) % 2]
+            star = os.path.join(wd, "single.star")
+            df = wedgeutils.create_wedge_list_sg(t["id"], dim, px, tlt, z_shift=zsh, ctf_file=ctf_file, ctf_file_type=ctf_type,
+                                                 dose_file=dose, voltage=volt, amp_contrast=amp, cs=cs, output_file=star)
+            out.append(("sg", wedge_rows_of_frame(df)))
+            out.append(("sg", wedge_rows_of_frame(frame_of_star(star))))
+            return out
+        if what == "em":
+            emf = os.path.join(wd, "wedge.em")
+            df = wedgeutils.create_wedge_list_em_batch(tomo_list, tlt_fmt, output_file=emf)
+            out.append(("em", [{"tomo": tm.sround(r["tomo_num"], 1), "lo": tm.sround(r["min_angle"], 100),
+                                "hi": tm.sround(r["max_angle"], 100)} for _, r in df.iterrows()]))
+            out.append(("em", em_rows(emf)))
+            return out
+        # batch (also the first half of sg2em)
+        kw = {}
+        if case["ctf"] == "ctffind4":
+            kw.update(ctf_file_format=os.path.join(wd, "$xxx_ctf.txt"), ctf_file_type="ctffind4")
+        elif case["ctf"] in ("gctf", "gctf_nophase", "array"):
+            kw.update(ctf_file_format=os.path.join(wd, "$xxx_ctf.star"), ctf_file_type="gctf")
+        if case["dose"] != "none":
+            kw.update(dose_file_format=os.path.join(wd, "$xxxx_dose.txt"))
+        order = list(range(len(tomos)))
+        sh.shuffle(order)                                       # tables are keyed by tomogram id, not by row position
+        if case["dims_input"] == "same":
+            kw.update(tomo_dim=[list(tomos[0]["dim"]), np.array(tomos[0]["dim"], dtype=float)][case["variant"] % 2])
+        elif case["dims_input"] == "table":
+            kw.update(tomo_dim=np.array([[tomos[k]["id"]] + tomos[k]["dim"] for k in order], dtype=float))
+        elif case["dims_input"] == "table_file":
+            path = os.path.join(wd, "dims.txt")
+            with open(path, "w") as fh:
+                for k in order:
+                    fh.write("%d %d %d %d\n" % tuple([tomos[k]["id"]] + tomos[k]["dim"]))
+            kw.update(tomo_dim=path)
+        else:
+            kw.update(tomo_dim_file_format=os.path.join(wd, "$xxx_dim.txt"))
+        sh.shuffle(order)
+        if case["z_input"] == "scalar":
+            kw.update(z_shift=tomos[0]["zshift"] / 10.0)
+        elif case["z_input"] == "table":
+            kw.update(z_shift=np.array([[tomos[k]["id"], tomos[k]["zshift"] / 10.0] for k in order]))
+        elif case["z_input"] == "frame":
+            kw.update(z_shift=pd.DataFrame([[tomos[k]["id"], tomos[k]["zshift"] / 10.0] for k in order]))
+        elif case["z_input"] == "table_file":
+            path = os.path.join(wd, "zshifts.txt")
+            with open(path, "w") as fh:
+                for k in order:
+                    fh.write("%d %s\n" % (tomos[k]["id"], tm.dec(tomos[k]["zshift"], 10, 1)))
+            kw.update(z_shift=path)
+        else:
+            kw.update(z_shift_file_format=os.path.join(wd, "$xxx_zshift.txt"))
+        star = os.path.join(wd, "batch.star")
+        df = wedgeutils.create_wedge_list_sg_batch(tomo_list, px, tlt_fmt, voltage=volt, amp_contrast=amp, cs=cs,
+                                                   output_file=star, **kw)
+        if what == "batch":
+            out.append(("sg", wedge_rows_of_frame(df)))
+            out.append(("sg", wedge_rows_of_frame(frame_of_star(star))))
+            return out
+        emf = os.path.join(wd, "from_sg.em")
+        em = wedgeutils.wedge_list_sg_to_em(star, emf, write_out=True)
+        out.append(("sg2em", [{"tomo": tm.sround(r["tomo_id"], 1), "lo": tm.sround(r["min_tilt_angle"], 100),
+                               "hi": tm.sround(r["max_tilt_angle"], 100)} for _, r in em.iterrows()]))
+        out.append(("sg2em", em_rows(emf)))
+        return out
+
+
 def run_tables(ctx, cases, corrupt=None):
-    raise core.MachineryError("loader / wedge layer not built yet")
+    traces, kept = [], []
+    for case in cases:
+        wd = os.path.join(ctx.sub("tables"), "c%d_%d" % (os.getpid(), ctx.traces))
+        res, err = core.call_guarded(exec_table_case, case, wd)
+        ctx.ran(case)
+        opname = {"tlt": "tlt_load", "dose": "total_dose_load", "mdocdose": "total_dose_load(mdoc)", "defocus": "defocus_load",
+                  "single": "create_wedge_list_sg", "batch": "create_wedge_list_sg_batch", "em": "create_wedge_list_em_batch",
+                  "sg2em": "wedge_list_sg_to_em"}[case["what"]]
+        if err is not None:
+            ctx.fail("call_raises", err, case, {"op": opname, "layer": "L3"})
+            continue
+        for j, (what, got) in enumerate(res):
+            if corrupt == "table" and not traces and got:
+                got = got[1:] + got[:1] if len(got) > 1 else []            # binding demonstration: a rotated / lost row
+            tr = {"kind": case["kind"], "id": case["id"], "what": what, "got": got}
+            for k in ("vals", "sort", "imgs", "rows", "tomos", "consts"):
+                if k in case:
+                    tr[k] = case[k]
+            traces.append(tr)
+            kept.append(dict(case, _obs=j, _op=opname))
+    validate(ctx, traces, kept, lambda case, v: {"op": case["_op"], "layer": "L3",
+                                                 "source": "returned" if case["_obs"] == 0 else "written file"})
 
 
 # ---- main -----------------------------------------------------------------------------------------------------------
@@ -419,6 +723,12 @@ def run(ctx):
         total = ctx.pick(60, 600)
         nmax = 80
         cases = [gen_mdoc_case(ctx.rng, i + 1, nmax) for i in range(total)]
+        corrupt = os.environ.get("VERIF_C17_CORRUPT") or None
         for b in range(0, total, 100):
-            run_random_mdocs(ctx, cases[b:b + 100],
-                             corrupt=(os.environ.get("VERIF_C17_CORRUPT") or None) if b == 0 else None)
+            run_random_mdocs(ctx, cases[b:b + 100], corrupt=corrupt if b == 0 else None)
+    if want("tables"):
+        total = ctx.pick(120, 3000)
+        cases = [gen_table_case(ctx.rng, 100000 + i) for i in range(total)]
+        corrupt = os.environ.get("VERIF_C17_CORRUPT") or None
+        for b in range(0, total, 500):
+            run_tables(ctx, cases[b:b + 500], corrupt=corrupt if b == 0 else None)
